@@ -143,6 +143,14 @@ func init() {
 					hist = 1
 				}
 				docs := map[string]*engine.DocCfg{"doc1": d, "doc2": d, "doc3": d}
+				if hist == 2 {
+					// the later document is larger, so that state left behind by a call on a small one shows
+					d2 := docCfg(d.Depth, 3, []string{"a"}, engine.KNil|engine.KFloat|engine.KString)
+					if d.Depth == 2 {
+						d2.MaxLenAt = map[int]int{1: 1}
+					}
+					docs["doc2"] = d2
+				}
 				scribble := "0"
 				if i%4 == 1 {
 					scribble = "1"
@@ -210,7 +218,7 @@ func init() {
 			valid := statePaths(tier, rng)
 			bad := badPaths()
 			cfgs := []string{"", "funcs", "funcs2", "accessor", "funcs+accessor", "empty"}
-			n := tierN(tier, 500, 6000)
+			n := tierN(tier, 3000, 20000)
 			for i := 0; i < n; i++ {
 				var target string
 				holes := ""
@@ -221,7 +229,7 @@ func init() {
 					tp = valid[rng.Intn(len(valid))]
 					target, holes = tp.Text, tp.Holes
 				}
-				hl := 1 + rng.Intn(tierN(tier, 2, 4))
+				hl := 1 + rng.Intn(tierN(tier, 3, 5))
 				hist := ""
 				for k := 0; k < hl; k++ {
 					var hp string
@@ -240,6 +248,32 @@ func init() {
 				jobs = append(jobs, &engine.Job{ID: fmt.Sprintf("c19-%d", i), Harness: "zzH_C19",
 					Params: map[string]string{"path": target, "holes": holes, "config": cfgs[rng.Intn(len(cfgs))], "history": hist},
 					Docs:   map[string]*engine.DocCfg{"doc": tinyDoc(tp)}, MaxPaths: 200000})
+			}
+			// after a history, a parsed function still behaves per the reference semantics
+			special := []string{"$[?(@.a == \"'a\")]", "$[?(@.b == '\"b')]", "$[?(@.a == \"'b\")]", "$[?(@.a == 'a')]", "$[?(@.a == \"a\")]", "$['\\'a']", "$[\"a\"]", "$['a']", "$.a", "$['b']",
+				"$[?(@.a =~ /'a/)]", "$[\"'a\"]", "$['\"a']", "$.b", "$[?(@.a == 7.5e1)]", "$[7001]", "$[?(@.a == 'x')]", "$[?(@.a == \"x\")]"}
+			var targets []Path
+			for _, p := range valid {
+				if nSteps(p) >= 1 && nSteps(p) <= 2 {
+					targets = append(targets, p)
+				}
+			}
+			for i := 0; i < tierN(tier, 500, 5000); i++ {
+				tp := targets[rng.Intn(len(targets))]
+				hist := ""
+				for k := 0; k < 1+rng.Intn(2); k++ {
+					hist += cfgs[rng.Intn(2)] + "\t" + special[rng.Intn(len(special))] + "\n"
+				}
+				if rng.Intn(3) == 0 {
+					hist += "\t" + bad[rng.Intn(len(bad))] + "\n"
+				}
+				cfg := ""
+				if tp.Funcs {
+					cfg = "funcs"
+				}
+				jobs = append(jobs, &engine.Job{ID: fmt.Sprintf("c19s-%d", i), Harness: "zzH_C19_spec",
+					Params: map[string]string{"path": tp.Text, "ast": tp.Ast, "holes": tp.Holes, "config": cfg, "checks": "C01", "infilter": inFilterFlag(tp), "history": hist},
+					Docs:   map[string]*engine.DocCfg{"doc": smallDoc(tp)}, MaxPaths: 200000})
 			}
 			return jobs
 		},
